@@ -66,12 +66,19 @@ type State struct {
 	heaps map[string]*Heap
 	alloc string // Int term: ids >= alloc are unallocated
 	epoch int    // bumped when all memory is havocked
+	tags  map[string]int // interface term -> dynamic type tag known on every path to here (>0), or -tag: known NOT to be
 }
 
 func (s *State) clone() *State {
 	n := &State{reach: s.reach, alloc: s.alloc, epoch: s.epoch, heaps: make(map[string]*Heap, len(s.heaps))}
 	for k, v := range s.heaps {
 		n.heaps[k] = v
+	}
+	if len(s.tags) > 0 {
+		n.tags = make(map[string]int, len(s.tags))
+		for k, v := range s.tags {
+			n.tags[k] = v
+		}
 	}
 	return n
 }
@@ -110,12 +117,21 @@ type FnVC struct {
 	implTypes   map[string]types.Type
 	mergedEpochs map[int]*mergedEpoch
 	ifaceFrameProps []string
+	lazies  []*lazyQuant
+	elemLocs map[string]bool
+	skolems []skolem
+	okTerms map[string]okFact // Bool term of a comma-ok type assertion -> what it tests
+}
+
+type okFact struct {
+	iface string
+	tag   int
 }
 
 func newFnVC(e *Engine, f *ssa.Function, ct *Contract) *FnVC {
 	return &FnVC{eng: e, top: f, ct: ct, curTag: -1, anc: map[int]map[int]bool{}, heapTab: map[string]*heapInfo{},
 		strLits: map[string]string{}, gids: map[ssa.Value]int{}, notes: map[string]bool{}, ufDecl: map[string]bool{}, implDecl: map[string]bool{},
-		closures: map[string]*closureRec{}, ranges: map[*ssa.Range]*rangeRec{}, usedExternal: map[string]bool{}, usedContracts: map[string]bool{}, implTypes: map[string]types.Type{}}
+		closures: map[string]*closureRec{}, ranges: map[*ssa.Range]*rangeRec{}, usedExternal: map[string]bool{}, usedContracts: map[string]bool{}, implTypes: map[string]types.Type{}, okTerms: map[string]okFact{}, elemLocs: map[string]bool{}}
 }
 
 func (fv *FnVC) emit(text string) {
@@ -401,6 +417,20 @@ func (fv *FnVC) mergeStates(conds []string, sts []*State) *State {
 		a = ite(conds[i], sts[i].alloc, a)
 	}
 	out.alloc = fv.def("alloc", "Int", a)
+	for k, v := range sts[0].tags {
+		all := true
+		for _, s := range sts[1:] {
+			if s.tags[k] != v {
+				all = false
+			}
+		}
+		if all {
+			if out.tags == nil {
+				out.tags = map[string]int{}
+			}
+			out.tags[k] = v
+		}
+	}
 	out.epoch = sts[0].epoch
 	for _, s := range sts {
 		if s.epoch != out.epoch {
@@ -503,6 +533,13 @@ func (fv *FnVC) load(st *State, loc string, t types.Type) Val {
 	h := fv.heapOf(st, leafKey(t), v.sortOf())
 	v.T = fv.def("ld", v.sortOf(), fv.loadRaw(h, loc))
 	fv.assumeWF(st, v)
+	if v.K == KIface && (strings.HasPrefix(loc, "(LElem ") || fv.elemLocs[loc]) && fv.boundDepth == 0 && canonType(t) == modPath+".Object" {
+		// input assumption: in the state at function entry, Object values held
+		// in arrays are never Go nil (stated about the entry heap only, so it
+		// cannot contradict later writes)
+		fv.assume("true", not(eq("(itag (select "+h.info.name+"_0 "+loc+"))", "0")))
+		fv.note("assumed on the entry state: elements of []Object containers are non-nil Objects")
+	}
 	return v
 }
 
@@ -516,7 +553,7 @@ func (fv *FnVC) assumeWF(st *State, v Val) {
 	g := st.reach
 	switch v.K {
 	case KLoc:
-		fv.assume(g, "(< (root "+v.T+") "+st.alloc+")")
+		fv.assume(g, and("(< (root "+v.T+") "+st.alloc+")"))
 	case KSlice:
 		fv.assume(g, and("(< (root (sarr "+v.T+")) "+st.alloc+")",
 			"(bvsle #x0000000000000000 (soff "+v.T+"))", "(bvsle #x0000000000000000 (slen "+v.T+"))",
